@@ -149,4 +149,14 @@ def decodePod (rp : RawPod) : Pod :=
       | _ => rp.reqNative,
     batchReq := rp.batchReq }
 
+/-- end-to-end runs evaluate several policies over one annotation: element codes ≥ 10 are policy NAMES
+    (10 BEMemoryEvict, 11 MemoryAllocatableEvict, 12 MemoryEvict, 13 BECPUEvict, 14 CPUAllocatableEvict,
+    15 CPUEvict); for the policy `f` being evaluated its own name is "the evaluated policy" (0), the other
+    names are "another string" (1). -/
+def policyElemsFor (f : Nat) (elems : List Nat) : List Nat :=
+  elems.map fun x => if x = f then 0 else if x ≥ 10 then 1 else x
+
+def decodePodFor (f : Nat) (rp : RawPod) : Pod :=
+  decodePod { rp with policyElems := policyElemsFor f rp.policyElems }
+
 end KoordVerif.C11
